@@ -65,7 +65,7 @@ pub fn classify(path: &str) -> PathClass {
     }
 }
 
-fn random_path(rng: &mut Rng, class: PathClass) -> String {
+pub fn random_path(rng: &mut Rng, class: PathClass) -> String {
     match class {
         PathClass::Benign => {
             if rng.chance(1, 3) {
